@@ -14,23 +14,24 @@ Spec == Init /\ [][Next]_l
 
 SetOf(seq) == {seq[i] : i \in 1..Len(seq)}
 RowAt(x) == [marker |-> x.marker, crash |-> x.crash, upload |-> x.upload, mode |-> x.mode, token |-> x.token, localOK |-> x.localOK]
+ExtAt(x) == [calls |-> x.calls, dbg |-> x.dbg, leak |-> x.leak, appCrash |-> x.appCrash]
 OutAt(x) == [sidecars |-> x.sidecars, uploaders |-> x.uploaders, nested |-> x.nested, launched |-> x.launched,
              acquired |-> x.acquired, wrote |-> SetOf(x.wrote)]
-WellFormed(x) == RowAt(x) \in Rows
-(* several real processes started at once (kind "race"): with no stale token *)
-(* present at most one of them gets an uploader sidecar                      *)
-RaceAtMostOne(x) == (x.kind = "race" /\ x.token # "stale") => (IF x.token = "fresh" THEN 1 ELSE 0) + x.uploaders <= 1
-ClauseAt(c, x) == IF c = "RaceAtMostOne" THEN RaceAtMostOne(x)
-                  ELSE IF x.kind = "race" /\ c = "NeverRecursive" THEN x.nested = 0
-                  ELSE Holds(c, RowAt(x), OutAt(x))
-AllClauseNames == Clauses \cup {"RaceAtMostOne"}
+WellFormed(x) == RowAt(x) \in Rows /\ ExtAt(x) \in Extras /\ x.kind \in {"row", "seq", "race"}
+(* kind "row": one process (calling Start x.calls times); "seq": x.calls      *)
+(* processes one after the other; "race": several real processes started at  *)
+(* once -- there the number of sidecars is not one start's, so only the      *)
+(* clauses that speak about the whole group are evaluated as they stand      *)
+ClauseAt(c, x) == IF x.kind = "race" /\ c = "NeverRecursive" THEN x.nested = 0
+                  ELSE Holds(c, RowAt(x), ExtAt(x), OutAt(x))
+AllClauseNames == Clauses
 (* exact agreement with the table (a disagreement that falsifies no clause   *)
 (* is a divergence of the model, not a violation)                            *)
 ConformsAt(x) == IF x.kind = "race"
                  THEN /\ x.sidecars = x.uploaders /\ x.nested = 0
-                      /\ x.uploaders = (CASE x.token = "fresh" -> 0 [] x.token = "absent" -> 1 [] OTHER -> x.uploaders)
+                      /\ x.uploaders = (CASE x.token \in {"fresh", "ghost"} -> 0 [] x.token = "absent" -> 1 [] OTHER -> x.uploaders)
                       /\ (x.token = "stale" => x.uploaders >= 1)
-                 ELSE Conforms(RowAt(x), OutAt(x)) /\ x.fatal = Launch(RowAt(x)).fatal
+                 ELSE Conforms(RowAt(x), ExtAt(x), OutAt(x)) /\ x.fatal = Fatal(RowAt(x), ExtAt(x))
 
 AllClauses == WellFormed(Trace[l]) /\ \A c \in AllClauseNames : ClauseAt(c, Trace[l])
 Bad == UNION {{<<i, c>> : i \in {j \in 1..Len(Trace) : ~ClauseAt(c, Trace[j])}} : c \in AllClauseNames}
